@@ -116,7 +116,8 @@ def main(argv=None):
             ev["fid"] = fid
         keep = res["verdict"] not in (HELD,)
         key = (res["verdict"],) + tuple(sorted(res["tags"]))[:4]
-        if not keep and kept.get(key, 0) < 2 and len(kept) < 400:
+        huge = isinstance(case, dict) and isinstance(case.get("lens"), list) and len(case["lens"]) > 2000
+        if not keep and kept.get(key, 0) < 2 and len(kept) < 400 and not huge:
             keep = True
         if keep:
             kept[key] = kept.get(key, 0) + 1
